@@ -309,8 +309,8 @@ func histString(h []Sym) string {
 
 // Run is the entry point.
 func Run(r *mon.Run) {
-	r.Rule = "gate mode: one broker per history; operations (attempts on in/out/io with related IDs, endings of each kind, holds inside the tear-down window, shutdown, probes) are executed one at a time, the verif hook parks every admission and release so the serialisation order is chosen by the harness; each decision is judged against a one-sided model (must-refuse), then probes check that I/O flows exactly to the live streams. A history is non-trivial if at least one attempt was decided in a state where some stream was attached, tearing down or the broker shut down; distinct = distinct (operations, decisions) traces. engine aged: the tear-down and wrong-ID refusals again after 17 s (thorough also 35 s and 65 s) of real time inside a stuck tear-down or half-attached state. stress mode: free-running goroutines with random yields at the hook points, boundary history checked with porcupine"
-	r.Assumptions = []string{"the three verifPoint hook calls are outside b.mu, so parking there only stretches windows that exist", "attempts overlapping Do's cancellation may go either way (shutdown window)", "porcupine v1.3.0"}
+	r.Rule = "gate mode: one broker per history; operations (attempts on in/out/io with related IDs, endings of each kind, holds inside the tear-down window, shutdown, probes) are executed one at a time, the verif hook parks every admission and release so the serialisation order is chosen by the harness; each decision is judged against a one-sided model (must-refuse), then probes check that I/O flows exactly to the live streams. A history is non-trivial if at least one attempt was decided in a state where some stream was attached, tearing down or the broker shut down; distinct = distinct (operations, decisions) traces. engine aged: the tear-down and wrong-ID refusals again after 17 s (thorough also 35 s and 65 s) of real time inside a stuck tear-down or half-attached state. engine lockq: attempts decided while others are already QUEUED for the broker: one stream (a half of an /io request that is being refused for the state of the previous shell - tearing down after an /io or a two-stream shell, a half-attached or fully attached shell whose streams have ended but not yet reached their release section - or an ID-less stranger) is kept inside the broker by a stalled operator terminal behind an exactly full operator channel (capacity 0/1/2/5); behind it queue, in a case-chosen order, the last stream(s) of the previous shell going for their release section and the undecided half/halves of the /io request, an operator line pending all the time; then the terminal resumes. Verdicts from the one event log: no half of an /io request is attached after the other half's refusal record (one attempt), a request whose first decision was a refusal gets no operator input and shows no output, returns, and the operator is told; the half decided with everything else parked must be refused; that holder and queue really overlapped is shown from the log (notice displayed as line capacity+2 or later after the stall, hook points passed before and decisions after the resume note) and is a floor. stress mode: free-running goroutines with random yields at the hook points, boundary history checked with porcupine"
+	r.Assumptions = []string{"the three verifPoint hook calls are outside b.mu, so parking there only stretches windows that exist", "attempts overlapping Do's cancellation may go either way (shutdown window)", "porcupine v1.3.0", "lockq: between passing the admit/release hook point and its decision a stream does nothing but wait for the broker's lock; in which order the lock is handed to those waiting is the runtime's business and no verdict depends on it (a request both halves of which are attached after the tear-down completed is accepted as the new shell)"}
 
 	var lists [][]Sym
 	d := directed()
@@ -345,6 +345,9 @@ func Run(r *mon.Run) {
 		r.Count("aged_histories", int64(len(aged)))
 	}
 
+	if r.WantEngine("lockq") {
+		lockq(r)
+	}
 	if r.Thorough() && r.WantEngine("enum") {
 		enumerate(r)
 	}
